@@ -532,6 +532,10 @@ def main(tier):
                           "-lens", os.path.join(wd, "lens_enc.ndjson"), "-made", str(run.seed), "-bigs", os.path.join(wd, "bigs_enc.ndjson")], timeout=3000)
         vlib.log("[C13] harness %.1fs" % (time.time() - t_h))
         lines = vlib.read_ndjson(trace)
+        # decoding into a receiver that held another message before: recorded, not judged (TraceC13)
+        ru = [x for x in lines if x.get("reused")]
+        run.extra["decoded_into_a_used_receiver"] = {"decodes": len(ru),
+            "types_whose_result_differs_from_a_fresh_decode": sorted({x["type"] for x in ru if x.get("rerr2") == "" and x.get("projReused") != x.get("proj")})}
         skipped = [x for x in lines if x["ev"] == "made" and x["skipped"]]
         made = [x for x in lines if x["ev"] == "made"]
         if len(skipped) * 10 > len(made):
